@@ -1,4 +1,5 @@
 """C11 — a failed policy reload leaves the enforcer exactly as it was"""
+import re
 import common
 import enf_corr as ec
 
@@ -264,7 +265,8 @@ def ord_expected(shape, store):
     if shape == "prio":
         if any(len(r) < 1 for r in p):
             return None
-        dig = [r[0].isdigit() for r in p]
+        # numeric = a decimal integer, negative ones included (int() reads them; the load sorts on int since the C07 repair)
+        dig = [bool(re.fullmatch(r"-?[0-9]+", r[0])) for r in p]
         if all(dig):
             return sorted(p, key=lambda r: int(r[0]))
         if not any(dig):
